@@ -89,6 +89,45 @@ def sweep(tier, seed):
                     fails.append({'input': {'merge': [c1, c2], 'data_key': data_key}, 'observed': bad, 'expected': 'concatenation, operands untouched'})
                     if len(fails) >= 6:
                         return _res(n, fails, nmax)
+    # merge with an EMPTY browser on either side (no item, but global variables): the union of the globals, a new browser, operands left alone
+    for data_key in ('results', 'd'):
+        for c1 in list(_items(1, data_key))[:4] + [[]]:
+            for side in ('empty right', 'empty left'):
+                n += 1
+                full, empty = Browser(copy.deepcopy(c1), data_key=data_key, global_vars={'g': 1}), Browser([], data_key=data_key, global_vars={'h': 2})
+                m = full.merge(empty) if side == 'empty right' else empty.merge(full)
+                bad = None
+                if [_strip(x) for x in m.content] != [_strip(x) for x in c1]:
+                    bad = f'merge content {m.content}'
+                elif m.globals != {'g': 1, 'h': 2}:
+                    bad = f'the merged browser has the globals {m.globals}, expected those of both operands'
+                elif m is full or m is empty:
+                    bad = 'merge returned one of its operands'
+                else:
+                    m.globals['later'] = 3
+                    if full.globals != {'g': 1} or empty.globals != {'h': 2}:
+                        bad = 'changing the merged browser changed an operand'
+                if bad:
+                    fails.append({'input': {'merge': [c1, []] if side == 'empty right' else [[], c1], 'data_key': data_key, 'globals': [{'g': 1}, {'h': 2}]}, 'observed': bad,
+                                  'expected': 'concatenation, union of the globals, operands untouched'})
+    # three criteria, in every keyword order (the running intersection may become empty before the last criterion)
+    import itertools as _it
+    people = [{'menu': 1, 'drink': 'beer', 'consumer': 'Terry', 'results': 0}, {'menu': 2, 'drink': 'tea', 'consumer': 'John', 'results': 1},
+              {'menu': 1, 'drink': 'tea', 'consumer': 'Graham', 'results': 2}]
+    vals = {'menu': (1, 2), 'drink': ('beer', 'tea'), 'consumer': ('Terry', 'John', 'Graham')}
+    for combo in _it.product(*[[(k, v) for v in vs] for k, vs in vals.items()]):
+        for order in _it.permutations(combo):
+            n += 1
+            kwargs = dict(order)
+            br = Browser(copy.deepcopy(people))
+            want = _scan(people, 'results', kwargs, (), ())
+            got = br.filter_by(**kwargs).content
+            if [_strip(x) for x in got] != [_strip(x) for x in want]:
+                fails.append({'input': {'content': people, 'data_key': 'results', 'kwargs': kwargs, 'include': [], 'exclude': []},
+                              'observed': f'filter_by selected {[_strip(x) for x in got]}', 'expected': f'direct scan: {[_strip(x) for x in want]}'})
+                break
+        if len(fails) >= 6:
+            return _res(n, fails, nmax)
     # derived browsers (sub-browsers of filter_by, merged browsers, chains): their index describes THEIR content, position key included
     for data_key in ('results', 'd'):
         c1 = [{'a': i % 2, 'b': i % 3, data_key: [i]} for i in range(5)]
@@ -175,7 +214,7 @@ def _index_describes_content(br, data_key):
 def _res(n, fails, nmax):
     return {'name': 'browser-queries-native', 'evaluations': n, 'distinct': n, 'failures': fails[:8], 'exhaustive': True,
             'bound': f'all browsers with <= {nmax} items over keys {{a, b}} (absent / 0 / 1), unhashable data under data key in {{results, d}}, '
-                     'x 180 queries (values incl. absent ones, include, exclude) + merges of 1-item browsers and a filter chain + 6 derived browsers (sub-browsers, merges, chains): index invariant and queries by position + a 40-item browser with 31 '
+                     'x 180 queries (values incl. absent ones, include, exclude) + merges of 1-item browsers and a filter chain, merges with an empty browser on either side, every 3-criteria query in every keyword order on 3 items + 6 derived browsers (sub-browsers, merges, chains): index invariant and queries by position + a 40-item browser with 31 '
                      'queries asked twice (order of the selection, queries do not disturb each other); compared with a direct scan',
             'samples': [{'content': [{'a': 0, 'results': [1, 0]}], 'kwargs': {'a': 0}, 'include': ['b'], 'exclude': []}]}
 
